@@ -25,8 +25,8 @@ MAX_REPORTED = 4      # divergences reported per function (a broken CRC disagree
 JVM_OPTS = "-Xmx3g -XX:ParallelGCThreads=2 -XX:CICompilerCount=2"    # many single-worker TLC processes side by side
 
 
-def _cfg(maxlen, shard, nshards, divmax):
-    s = "SPECIFICATION Spec\nCONSTANTS\n  MaxLen = %d\n  Shard = %d\n  NShards = %d\n  DivMax = %d\n" % (maxlen, shard, nshards, divmax)
+def _cfg(maxlen, shard, nshards, divmax, step=1):
+    s = "SPECIFICATION Spec\nCONSTANTS\n  MaxLen = %d\n  Shard = %d\n  NShards = %d\n  DivMax = %d\n  LemmaStep = %d\n" % (maxlen, shard, nshards, divmax, step)
     s += "".join("INVARIANT %s\n" % i for i in INVARIANTS)
     return s + "CHECK_DEADLOCK FALSE\n"
 
@@ -75,6 +75,7 @@ def run_c41(ctx):
     nshards = max(1, env.NCPU)
     nrand = ctx.pick(240, 6000)
     divmax = ctx.pick(16, 40)
+    step = ctx.pick(16, 1)      # quick: the lemmas on every 16th two byte string; the table always holds all of them
     rand = random_strings(rng, nrand)
     work = env.subdir("c41")
 
@@ -83,7 +84,7 @@ def run_c41(ctx):
         out = os.path.join(work, "table%d.json" % k)
         with open(cases, "w") as f:
             json.dump([{"m": m} for m in rand[k::nshards]], f)
-        res = tlc.run("Crc", _cfg(2, k, nshards, divmax), spec_dir=SPEC_DIR, workers=1,
+        res = tlc.run("Crc", _cfg(2, k, nshards, divmax, step), spec_dir=SPEC_DIR, workers=1,
                       extra_env={"TABLE_OUT": out, "CASES_FILE": cases, "JAVA_TOOL_OPTIONS": JVM_OPTS}, tag="c41-%d" % k)
         return k, res, out
 
@@ -93,7 +94,7 @@ def run_c41(ctx):
     table = []
     ngrid = nfile = 0
     for k, res, out in results:
-        ctx.add_model(res, "Crc shard %d/%d" % (k, nshards), {"MaxLen": 2, "Shard": k, "NShards": nshards, "DivMax": divmax})
+        ctx.add_model(res, "Crc shard %d/%d" % (k, nshards), {"MaxLen": 2, "Shard": k, "NShards": nshards, "DivMax": divmax, "LemmaStep": step})
         if not res.ok:
             ctx.diverge(Divergence("C41", "model", res.error_name or res.error, "Crc",
                                    "a lemma of the CRC specification is violated in the model (catalogue anchor or algebra)",
